@@ -109,6 +109,7 @@ def extrasErr : List Extra → Option Err
   | .badProp :: _ => some .attrError
   | .okProp :: ex => extrasErr ex
   | .fk _ _ :: ex => extrasErr ex
+  | .parentAttr _ _ _ :: ex => extrasErr ex
 
 def allOk (kw : List (Nat × In)) : Bool := kw.all fun a => a.2.isOk
 
@@ -147,6 +148,7 @@ theorem run_validates (sch inj) (kw : List (Nat × In)) (k : Prog) (s : St) :
 def noFk : List Extra → Bool
   | [] => true
   | .fk _ _ :: _ => false
+  | .parentAttr _ _ _ :: _ => false
   | _ :: ex => noFk ex
 
 theorem run_extras (sch inj) (c id : Nat) (ex : List Extra) (k : Prog) (s : St) (hfk : noFk ex = true) :
@@ -158,8 +160,7 @@ theorem run_extras (sch inj) (c id : Nat) (ex : List Extra) (k : Prog) (s : St) 
   | nil => simp [extras, extrasErr]
   | cons a ex ih =>
     cases a <;> simp only [extras, List.foldr_cons, run, extrasErr, noFk] at ih hfk ⊢
-    · exact ih hfk
-    · cases hfk
+    all_goals first | exact ih hfk | cases hfk
 
 theorem run_extrasPure (sch inj) (ex : List Extra) (k : Prog) (s : St) :
     run sch inj (extrasPure ex k) s =
@@ -170,8 +171,7 @@ theorem run_extrasPure (sch inj) (ex : List Extra) (k : Prog) (s : St) :
   | nil => simp [extrasPure, extrasErr]
   | cons a ex ih =>
     cases a <;> simp only [extrasPure, List.foldr_cons, run, extrasErr] at ih ⊢
-    · exact ih
-    · exact ih
+    all_goals exact ih
 
 theorem run_precheck (sch inj) (ex : List Extra) (k : Prog) (s : St) :
     run sch inj (precheck ex k) s = if hasUnknown ex = true then (s, some .typeError) else run sch inj k s := by
